@@ -18,6 +18,6 @@ For each change i in (1, 2) create the directory /tmp/wt/{pid}/MUTANTS/m<i>/ con
   - patch.diff : `git diff` of that change alone against the clean tree (must apply with `patch -p1` at the repository root);
   - demo.py    : a standalone script (no pytest needed, no network) that exercises only public behaviour and shows the violation of the property AS STATED: it must exit 0 on the clean tree and exit non-zero (e.g. a failing assert with a clear message) with the patch applied;
   - notes.md   : 5-10 lines: what was changed, why it breaks the property, what it needs in order to manifest.
-Verify each one yourself before finishing: (a) with the patch applied, `/verif/tools/baseline.py /tmp/wt/{pid}` prints `baseline: 1081/1081 stable tests pass` (takes about 40 s; this helper only runs the repository's own tests on your tree); (b) `cd /tmp/wt/{pid} && PYTHONPATH=/tmp/wt/{pid}/src /venv/bin/python MUTANTS/m<i>/demo.py; echo $?` gives non-zero with the patch and 0 on the clean tree (use `git stash` / `git checkout -- src` to switch). If a change fails the pinned suite, pick another change. At the end restore the tree (`git checkout -- src tests`), leaving only the MUTANTS directory. Every shell command prints a harmless `WARNING conda.cli.condarc` line; ignore it.
+Verify each one yourself before finishing: (a) with the patch applied, `/verif/tools/baseline.py /tmp/wt/{pid}` prints `baseline: 1081/1081 stable tests pass` (takes about 40 s; this helper only runs the repository's own tests on your tree); (b) `cd /tmp/wt/{pid} && PYTHONPATH=/tmp/wt/{pid}/src /venv/bin/python MUTANTS/m<i>/demo.py; echo $?` gives non-zero with the patch and 0 on the clean tree (switch with `git checkout -- src` and `patch -p1 < MUTANTS/m<i>/patch.diff`; NEVER use `git stash`: the stash is shared by all worktrees of the repository and other agents work in sibling worktrees). If a change fails the pinned suite, pick another change. At the end restore the tree (`git checkout -- src tests`), leaving only the MUTANTS directory. Every shell command prints a harmless `WARNING conda.cli.condarc` line; ignore it.
 
 Final message: at most 12 lines - for each mutant one line on what it changes and what it needs to manifest, and the verification results (baseline count, demo exit codes).""")
